@@ -935,7 +935,7 @@ pub fn canon_value(v: &Value, heap: &Heap) -> String {
 }
 
 fn canon_into(v: &Value, heap: &Heap, out: &mut String, depth: usize) {
-    if depth > 64 {
+    if depth > 400 {
         out.push_str("<deep>");
         return;
     }
